@@ -33,6 +33,21 @@ Theorem C12_dependencies_are_the_arguments :
   forall R t a, name_of R t = Ok a -> incl (refs a) (eids R (push t)).
 Proof. exact name_refs_incl. Qed.
 
+(* macros/src/types/{enum,named,tuple}.rs use exactly the format strings listed in Proofs/Sem_lib_proofs.v: macro_formats_ok
+   (read from the source on every run), and each produces the text the model prints for its construct *)
+Theorem C12_derive_formats_from_source :
+  same_set (literals_of "enum.rs") [L "({})"; L """{}"""; L "{{ ""{}"": {} }}"; L "{{ ""{}"": ""{}"" }}"; L "{{ ""{}"": ""{}"", ""{}"": {} }}";
+                                     L "{{ ""{}"": ""{}"" }} & {}"] = true /\
+  same_set (literals_of "named.rs") [L """{}"": ""{}"","; L "{{ {} }}"; L "{} & {}"; lit "
+{}"; L "{}{}: {},"; L "{}{}{}: {},"] = true /\
+  same_set (literals_of "tuple.rs") [L "[{}]"] = true /\
+  fmt_apply (L "{{ ""{}"": ""{}"", ""{}"": {} }}") [L "t"; L "N"; L "c"; L "T"] = print (TObj OVariant [(qh "t", TLit (L "N")); (qh "c", v "T")]) /\
+  fmt_apply (L "{{ ""{}"": ""{}"" }} & {}") [L "t"; L "N"; L "T"] = print (TInter [TObj OVariant [(qh "t", TLit (L "N"))]; v "T"]) /\
+  fmt_apply (L "{{ {} }}") [fmt_apply (L "{}{}{}: {},") [fmt_apply (lit "
+{}") [L "/** d */"]; L "a"; L "?"; L "T"]]
+    = print (TObj OStruct [({| p_docs := L "/** d */"; p_key := L "a"; p_text := L "a"; p_optional := true |}, v "T")]).
+Proof. destruct macro_formats_ok as (H1 & H2 & H3 & _ & _ & _ & _ & H8 & H9 & H10 & _). repeat split; assumption. Qed.
+
 (* the text the model prints for Option / Result / Vec / HashMap / Range around placeholder arguments is what the format
    literals of the impls in ts-rs/src/lib.rs produce (literals read from the source on every run) *)
 Theorem C12_container_formats_from_source :
@@ -40,6 +55,7 @@ Theorem C12_container_formats_from_source :
 Proof. exact lib_formats_ok. Qed.
 
 Print Assumptions C12_container_formats_from_source.
+Print Assumptions C12_derive_formats_from_source.
 Print Assumptions C12_primitive_rows_match_serde.
 Print Assumptions C12_wrappers_are_the_transparent_ones.
 Print Assumptions C12_shadows_defer_to_the_right_impl.
